@@ -256,6 +256,18 @@ func c04(c *Ctx) {
 			}
 		}
 		r.Check(okRes, "C04.R2", "default results in "+shortName(defFn), p.Pos(defFn.Pos()), "returns the default matcher's Result()", "the default consult does not return the default matcher's results")
+		// ---- R9 what is recorded as the default is unconditional: a matcher whose Match answers true for every call (or nil)
+		var defFld *types.Var
+		for _, ret := range returnsOf(defFn) {
+			if rc, ok := retResult(ret, 0).(*ssa.Call); ok && rc.Call.IsInvoke() && rc.Call.Method.Name() == "Result" {
+				if _, fv, ok := fieldRef(rc.Call.Value); ok && fv != nil && fv != matchesFld && recvTypeIs(fv, when) {
+					defFld = fv
+				}
+			}
+		}
+		if defFld != nil {
+			c04DefaultUnconditional(p, r, root, when, defFld)
+		}
 	}
 	// MakeFunc callbacks never return an unselected value
 	for _, f := range root {
